@@ -218,8 +218,11 @@ class JsonResource(Resource):
             if feature.is_attribute:
                 eattributes.append((feature, value))
                 if feature.iD:
-                    # references to this object are written as its id
-                    self.uuid_dict[value] = inst
+                    # references to this object are written as its id, in
+                    # its text form (an int id 7 is referred to as "7")
+                    key = value if isinstance(value, str) \
+                        else feature._eType.to_string(value)
+                    self.uuid_dict[key] = inst
             else:
                 if feature.containment:
                     containments.append((feature, value))
